@@ -495,3 +495,5 @@ _quick("C11", "C11_pipeline", _PIPE, ["-witness", "1"])
 _quick("C13", "C11_pipeline", "(also under C11) " + _PIPE + " (every run-time check on the undo path is an obligation: well-formed frames must not crash the server)", ["-witness", "1"])
 
 _quick("C05", "C05_mslate", "the millisecond wheel when a slot's sweeper goroutine is d = 0 / 1 / 5 ms late: W1 waits 300 ms; in the window between its deadline and its sweeper's run W2 arrives with a wait of 2500 / 2995 / 3000 - d ms; neither is answered TIMEOUT before its wait has passed, each exactly once by T + 2 s", [], reach=["late-sweep"], native=False)
+
+_quick("C04", "C17_zerowaiter", "(also under C17) a holder and 1..2 queued requests of which the first, the second or both have Expried 0 (served, such a request holds nothing); the holder unlocks: the wake-up pass goes on until the next queued request is not admissible — nothing admissible is left at the head of the queue", ["-witness", "1"])
